@@ -187,6 +187,12 @@ impl<'a> AnnotationCsv<'a> {
                             let res: &TextResource = store.get(*res).expect("resource must exist");
                             out += res.id().expect("resource must have an id");
                         }
+                        //internal ranged selectors of another kind expand to multiple subselectors: keep the columns aligned
+                        Selector::RangedAnnotationSelector { begin, end, .. } => {
+                            for _ in begin.as_usize()..end.as_usize() {
+                                out.push(';');
+                            }
+                        }
                         _ => {}
                     }
                 }
@@ -214,6 +220,17 @@ impl<'a> AnnotationCsv<'a> {
                             let dataset: &AnnotationDataSet =
                                 store.get(*dataset).expect("dataset must exist");
                             out += dataset.id().expect("dataset must have an id");
+                        }
+                        //internal ranged selectors of another kind expand to multiple subselectors: keep the columns aligned
+                        Selector::RangedTextSelector { begin, end, .. } => {
+                            for _ in begin.as_usize()..end.as_usize() {
+                                out.push(';');
+                            }
+                        }
+                        Selector::RangedAnnotationSelector { begin, end, .. } => {
+                            for _ in begin.as_usize()..end.as_usize() {
+                                out.push(';');
+                            }
                         }
                         _ => {}
                     }
@@ -249,6 +266,17 @@ impl<'a> AnnotationCsv<'a> {
                             let key: &DataKey =
                                 dataset.get(*key).expect("key must exist");
                             out += key.id().expect("key must have an id");
+                        }
+                        //internal ranged selectors of another kind expand to multiple subselectors: keep the columns aligned
+                        Selector::RangedTextSelector { begin, end, .. } => {
+                            for _ in begin.as_usize()..end.as_usize() {
+                                out.push(';');
+                            }
+                        }
+                        Selector::RangedAnnotationSelector { begin, end, .. } => {
+                            for _ in begin.as_usize()..end.as_usize() {
+                                out.push(';');
+                            }
                         }
                         _ => {}
                     }
@@ -289,6 +317,17 @@ impl<'a> AnnotationCsv<'a> {
                                 out += id;
                             } else {
                                 out += data.temp_id().expect("temp_id must succeed").as_str();
+                            }
+                        }
+                        //internal ranged selectors of another kind expand to multiple subselectors: keep the columns aligned
+                        Selector::RangedTextSelector { begin, end, .. } => {
+                            for _ in begin.as_usize()..end.as_usize() {
+                                out.push(';');
+                            }
+                        }
+                        Selector::RangedAnnotationSelector { begin, end, .. } => {
+                            for _ in begin.as_usize()..end.as_usize() {
+                                out.push(';');
                             }
                         }
                         _ => {}
@@ -335,6 +374,12 @@ impl<'a> AnnotationCsv<'a> {
                                 out += id;
                             } else {
                                 out += &ann.temp_id().expect("temp_id must succeed");
+                            }
+                        }
+                        //internal ranged selectors of another kind expand to multiple subselectors: keep the columns aligned
+                        Selector::RangedTextSelector { begin, end, .. } => {
+                            for _ in begin.as_usize()..end.as_usize() {
+                                out.push(';');
                             }
                         }
                         _ => {}
